@@ -79,24 +79,51 @@ def all_rhs(maxrhs):
     return [r for n in range(maxrhs + 1) for r in itertools.product(SYMS, repeat=n)]
 
 
+# Symbols are single characters: upper case = non-terminal (start symbol S), lower case = terminal.
+def nts_of(prods):
+    return ["S"] + sorted({l for l, _ in prods} - {"S"})
+
+
+def terms_of(prods):
+    return sorted({x for _, r in prods for x in r if x.islower()} | {"a", "b"})
+
+
 def valid(prods):
     lhs = {l for l, _ in prods}
-    used = {x for _, r in prods for x in r if x in NONTERMS}
+    used = {x for _, r in prods for x in r if x.isupper()}
     if "S" not in lhs or not used <= lhs:
         return False
-    if "A" in lhs and not any(l == "S" and "A" in r for l, r in prods):
-        return False
-    return True
+    reach, ch = {"S"}, True
+    while ch:
+        ch = False
+        for l, r in prods:
+            if l in reach:
+                for x in r:
+                    if x.isupper() and x not in reach:
+                        reach.add(x)
+                        ch = True
+    return lhs <= reach
 
 
 def canon(prods):
-    """Canonical representative: sorted production list (S first), the smaller of the grammar and
-    its image under swapping the terminals a <-> b."""
-    sw = {"a": "b", "b": "a", "S": "S", "A": "A"}
-    order = lambda ps: tuple(sorted(set(ps), key=lambda p: (p[0] != "S", len(p[1]), p[1])))
+    """Canonical representative: sorted production list (S first); for grammars over {a, b} the
+    smaller of the grammar and its image under swapping the terminals a <-> b."""
+    order = lambda ps: tuple(sorted(set(ps), key=lambda p: (p[0] != "S", p[0], len(p[1]), p[1])))
     g1 = order(prods)
-    g2 = order([(l, tuple(sw[x] for x in r)) for l, r in prods])
+    if terms_of(prods) != ["a", "b"]:
+        return g1
+    sw = {"a": "b", "b": "a"}
+    g2 = order([(l, tuple(sw.get(x, x) for x in r)) for l, r in prods])
     return min(g1, g2, key=gkey)
+
+
+def word_len(prods, deep=False):
+    """Longest word tried for a grammar: 5 over two terminals (63 words), 4 over three or more
+    (121 / 341 words); deep: 5 over three terminals (364 words)."""
+    n = len(terms_of(prods))
+    if n <= 2:
+        return 5
+    return 5 if (deep and n == 3) else 4
 
 
 def tags(prods):
@@ -135,6 +162,64 @@ SEEDS = [
 ]
 
 
+# Directed family: rules built around optional (nullable) parts with NON-EMPTY first sets that stand
+# between a non-terminal and a terminal, so that the look-ahead of the item before them is
+# FIRST(optional parts) + the terminal: X -> N O t, X -> N O P t, X -> t N O u, lists with optional
+# separators / trailers, nested optionals.  3 (some 2 or 4) non-terminals, 3 terminals.
+CORE = [
+    "S>NOc|N>a|O>b|O>",              # call -> name opt_args ';'
+    "S>NOa|N>a|O>bc|O>",             # opt_args -> '(' ')' | eps
+    "S>NOPc|N>a|O>b|O>|P>a|P>",      # two optional parts in front of the terminal
+    "S>aNOb|N>c|O>b|O>",             # X -> t N O u
+    "S>SOc|S>N|N>a|O>b|O>",          # list with optional part before the terminator
+    "S>SAb|S>a|A>a|A>",              # the same with two non-terminals
+    "S>NOc|N>a|O>Pb|O>|P>c|P>",      # nested optional
+    "S>LO|L>LcN|L>N|N>a|O>b|O>",     # list with optional trailer (4 non-terminals)
+    "S>SON|S>N|N>a|O>b|O>",          # optional separator
+    "S>ONc|N>a|O>b|O>",              # optional prefix
+    "S>NcO|N>a|O>b|O>",              # optional suffix
+    "S>NOc|S>NPb|N>a|O>b|O>|P>c|P>",
+]
+
+
+def directed():
+    out = []
+    n_vars = [["N>a"], ["N>ab"], ["N>a", "N>b"], ["N>c"]]
+    o_vars = [["O>b", "O>"], ["O>bc", "O>"], ["O>b", "O>c", "O>"], ["O>Pb", "O>", "P>c", "P>"], ["O>Ob", "O>"]]
+    p_vars = [["P>c", "P>"], ["P>a", "P>"], ["P>cb", "P>"]]
+    templates = ["S>NOt", "S>NOPt", "S>tNOu", "S>SOt|S>N", "S>SON|S>N", "S>NO", "S>ONt", "S>NtO",
+                 "S>LO|L>LtN|L>N", "S>NOt|S>NPu", "S>tON", "S>NOOt", "S>SOt|S>a", "S>tSOu|S>N"]
+    for tpl in templates:
+        for t in "abc":
+            for u in ("abc" if "u" in tpl else "a"):
+                top = tpl.replace("t", t).replace("u", u).split("|")
+                for nv in n_vars:
+                    for ov in o_vars:
+                        defines_p = any(x.startswith("P>") for x in ov)
+                        for pv in (p_vars if ("P" in tpl and not defines_p) else [[]]):
+                            ps = top + (nv if "N" in tpl else []) + ov + pv
+                            out.append(parse_gkey("|".join(ps)))
+    return out
+
+
+def random3(rng, want):
+    """Seeded random grammars with three non-terminals S, A, B, up to 5 productions, 2-3 terminals."""
+    out, tries = [], 0
+    while len(out) < want and tries < want * 60:
+        tries += 1
+        terms = "abc" if rng.random() < 0.35 else "ab"
+        syms = terms + "SAB"
+        n = rng.choice((3, 4, 4, 5, 5))
+        lhss = ["S", "A", "B"] + [rng.choice("SAB") for _ in range(n - 3)]
+        ps = []
+        for l in lhss:
+            k = rng.choices((0, 1, 2, 3), weights=(3, 4, 6, 5))[0]
+            ps.append((l, tuple(rng.choice(syms) for _ in range(k))))
+        if len(set(ps)) == n and valid(ps):
+            out.append(tuple(ps))
+    return out
+
+
 def worklist(ctx):
     rng = ctx.rng
     thorough = ctx.tier == "thorough"
@@ -151,6 +236,15 @@ def worklist(ctx):
 
     for s in SEEDS:
         add(parse_gkey(s), "seed")
+    for s in CORE:
+        add(parse_gkey(s), "directed-core")
+    fam = directed()
+    if not thorough:
+        fam = rng.sample(fam, 90)
+    for g in fam:
+        add(g, "directed")
+    for g in random3(rng, 2000 if thorough else 120):
+        add(g, "rnd3nt")
     # exhaustive part
     small = [(l, r) for l in NONTERMS for r in all_rhs(2)]
     full = [(l, r) for l in NONTERMS for r in all_rhs(3)]
@@ -172,7 +266,7 @@ def worklist(ctx):
         n = rng.choices((0, 1, 2, 3), weights=(3, 4, 6, 5))[0]
         return (lhs, rng.choice(by_len[n]))
 
-    budget = {2: 1000, 3: 3500, 4: 3500} if thorough else {2: 200, 3: 350, 4: 350}
+    budget = {2: 1000, 3: 2500, 4: 2500} if thorough else {2: 120, 3: 220, 4: 300}
     for n, want in budget.items():
         got = tries = 0
         while got < want and tries < want * 40:
@@ -187,8 +281,8 @@ def worklist(ctx):
     return out
 
 
-def words():
-    return [w for n in range(MAXLEN + 1) for w in itertools.product(TERMS, repeat=n)]
+def words(terms, maxlen):
+    return [w for n in range(maxlen + 1) for w in itertools.product(terms, repeat=n)]
 
 
 # ---------------------------------------------------------------------------------------------
@@ -201,8 +295,10 @@ def exc_name(e):
     return type(e).__name__
 
 
-def drive(prods, wordlist):
-    """Run ppci on one grammar; return the record TLC judges."""
+def drive(prods, maxlen):
+    """Run ppci on one grammar and all words over its terminals up to maxlen; return the record TLC judges."""
+    terms = terms_of(prods)
+    wordlist = words(terms, maxlen)
     from ppci.lang.tools.grammar import Grammar
     from ppci.lang.tools import lr as lrmod
     from ppci.lang.tools.common import ParserException, ParserGenerationException
@@ -244,15 +340,14 @@ def drive(prods, wordlist):
 
     def grammar():
         g = Grammar()
-        g.add_terminals(TERMS)
+        g.add_terminals(terms)
         for n, (l, r) in enumerate(prods):
             g.add_production(l, list(r), action(n + 1))
         g.start_symbol = "S"
         return g
 
-    nts = [x for x in NONTERMS if any(l == x for l, _ in prods)]
-    rec = {"key": gkey(prods), "tags": tags(prods),
-           "G": {"terms": list(TERMS), "nonterms": nts, "prods": [[l, list(r)] for l, r in prods], "start": "S"}}
+    rec = {"key": gkey(prods), "tags": tags(prods), "maxlen": maxlen,
+           "G": {"terms": terms, "nonterms": nts_of(prods), "prods": [[l, list(r)] for l, r in prods], "start": "S"}}
     # first sets
     try:
         fs = lrmod.calculate_first_sets(grammar())
@@ -342,20 +437,19 @@ def _worker():
     behaviour may depend on string hashes): grammar keys on stdin, records on stdout."""
     import json
     import sys
-    keys = json.load(sys.stdin)
-    wl = words()
+    jobs = json.load(sys.stdin)
     out = []
-    for k in keys:
+    for k, maxlen in jobs:
         prods = parse_gkey(k)
         try:
-            out.append(drive(prods, wl))
+            out.append(drive(prods, maxlen))
         except Exception as e:       # ppci does not even import / harness-level surprise: observed as a crash
-            nts = [x for x in NONTERMS if any(l == x for l, _ in prods)]
-            out.append({"key": k, "tags": tags(prods), "sr_resolved": False,
-                        "G": {"terms": list(TERMS), "nonterms": nts, "prods": [[l, list(r)] for l, r in prods], "start": "S"},
+            out.append({"key": k, "tags": tags(prods), "sr_resolved": False, "maxlen": maxlen,
+                        "G": {"terms": terms_of(prods), "nonterms": nts_of(prods),
+                              "prods": [[l, list(r)] for l, r in prods], "start": "S"},
                         "first": {"ok": False, "exc": exc_name(e)}, "lr": {"outcome": "crash", "exc": exc_name(e)},
                         "runs": [{"w": list(w), "lr": {"ok": False, "exc": "no parser", "events": []},
-                                  "earley": {"ok": False, "exc": exc_name(e)}} for w in wl]})
+                                  "earley": {"ok": False, "exc": exc_name(e)}} for w in words(terms_of(prods), maxlen)]})
     json.dump(out, sys.stdout, separators=(",", ":"))
 
 
@@ -363,7 +457,10 @@ def records(ctx, grammars):
     import json
     import subprocess
     import sys
-    keys = [gkey(g) for g, _ in grammars]
+    thorough = ctx.tier == "thorough"
+    # thorough: longer words for the core of the directed family and every third member of it
+    keys = [[gkey(g), word_len(g, thorough and (why == "directed-core" or (why == "directed" and n % 3 == 0)))]
+            for n, (g, why) in enumerate(grammars)]
     n = max(1, min(WORKERS, len(keys) // 40))
     size = (len(keys) + n - 1) // n
     env = dict(os.environ)
@@ -403,13 +500,18 @@ class Engine:
         thorough = ctx.tier == "thorough"
         ctx.rule("M: for every grammar over {a,b}/{S,A} with <= MaxProds productions and |rhs| <= MaxRhs TLC builds "
                  "the canonical LR(1) tables of LR.tla, runs the shift-reduce machine on every word <= MaxLen and "
-                 "checks the stack invariants, Exact/Sound against Derives, and the nullable/FIRST laws.  E/T: work "
-                 "list = seeds + all grammars with <= 2 productions and |rhs| <= 2, all single productions "
-                 "(thorough: all <= 2 productions |rhs| <= 3 and all 3 productions |rhs| <= 2) + seeded random "
-                 "grammars with 2-4 productions, |rhs| <= 3, up to the a<->b symmetry; each grammar is given to "
-                 "calculate_first_sets, LrParserBuilder, EarleyParser; the parser runs on all 63 words of length <= 5; "
-                 "TLC judges every run (clauses %s).  evaluations = (grammar, word) runs; distinct = grammars with a "
-                 "generated parser x words" % ", ".join(CLAUSES))
+                 "checks the stack invariants, Exact/Sound against Derives, and the nullable/FIRST/language laws.  E/T: "
+                 "work list = seeds + all grammars over {a,b}/{S,A} with <= 2 productions and |rhs| <= 2, all single "
+                 "productions (thorough: all <= 2 productions |rhs| <= 3 and all 3 productions |rhs| <= 2) + seeded "
+                 "random grammars with 2-4 productions, |rhs| <= 3, up to the a<->b symmetry + a directed family "
+                 "built around optional parts between a non-terminal and a terminal (X -> N O t, X -> N O P t, "
+                 "X -> t N O u, lists with optional separators/trailers, nested optionals; 2-4 non-terminals, 3 "
+                 "terminals; quick: 12 core + seeded 90 of ~1450, thorough: all) + seeded random grammars with 3 "
+                 "non-terminals, 3-5 productions, 2-3 terminals; each grammar is given to calculate_first_sets, "
+                 "LrParserBuilder, EarleyParser; the parser runs on all words over the grammar's terminals of length "
+                 "<= 5 (two terminals) / <= 4 (three; <= 5 for a third of the directed family in thorough); TLC judges "
+                 "every run (clauses %s).  evaluations = (grammar, word) runs; distinct = grammars with a generated "
+                 "parser x words" % ", ".join(CLAUSES))
         ctx.assume("the harness lexer/semantic actions (tokens carry their position; actions build [p, kids] nodes) "
                    "and the export of ppci's action/goto dictionaries into per-state JSON tables are faithful")
         ctx.assume("'no reported conflict' is read as: LrParserBuilder returned tables and the grammar has no "
@@ -469,7 +571,7 @@ class Engine:
     # -- E/T -------------------------------------------------------------------------------
     def judge(self, ctx, recs):
         # strip harness-only fields
-        payload = [{k: r[k] for k in ("key", "G", "first", "lr", "runs")} for r in recs]
+        payload = [{k: r[k] for k in ("key", "maxlen", "G", "first", "lr", "runs")} for r in recs]
         batch = 1500
         for lo in range(0, len(payload), batch):
             part = payload[lo:lo + batch]
